@@ -157,7 +157,7 @@ Record env := mkEnv_ {
   depth : N
 }.
 
-Definition default_steps : N := 200000.
+Definition default_steps : N := 30000.
 Definition default_depth : N := 120.
 
 Definition env_init (c : channels) : env := mkEnv_ [[]] None c default_steps default_depth.
